@@ -86,7 +86,7 @@ func startTags(out string, rejects func(string) bool) (rejected []string, all in
 		if tt == xhtml.StartTagToken || tt == xhtml.SelfClosingTagToken {
 			name, _ := z.TagName()
 			all++
-			n := strings.ToLower(string(name))
+			n := string(name) // the tokenizer lower-cases A-Z, as HTML does; nothing else
 			if rejects(n) {
 				rejected = append(rejected, n)
 			}
@@ -110,8 +110,35 @@ func prop(c harness.Case) harness.Result {
 		var pb bytes.Buffer
 		(&cm.HTMLRenderer{ReferenceMap: refs, SoftBreakBehavior: soft, IgnoreRaw: cfg.ignore}).Render(&pb, blocks)
 		plain := pb.String()
-		for _, spec := range specs {
+		// one more predicate per case: it rejects exactly the names of the start
+		// tags that a tokenizer sees in the unfiltered output (whatever bytes
+		// they are made of), so the filter has to arrive at the same names
+		seen := map[string]bool{}
+		collect := func(n string) bool { seen[n] = true; return false }
+		startTags(plain, collect)
+		// (a name that stands unterminated at the very end of a raw HTML region
+		// runs on, for a tokenizer, into the '<' of the tag the renderer writes
+		// next: "<a" + "</li>" is a tag named "a<". A predicate is a set of tag
+		// names as they stand in the document; this one therefore also rejects
+		// what precedes a '<' inside a name it has seen)
+		for n := range seen {
+			for i := 1; i < len(n); i++ {
+				if n[i] == '<' {
+					seen[n[:i]] = true
+				}
+			}
+		}
+		for _, n := range rawText {
+			seen[n] = true
+		}
+		for _, spec := range append(specs[:len(specs):len(specs)], "seen") {
 			libF, rej := predicate(spec)
+			if spec == "seen" {
+				if len(seen) == 0 {
+					continue
+				}
+				libF, rej = func(t []byte) bool { return seen[string(t)] }, func(n string) bool { return seen[n] }
+			}
 			var fb bytes.Buffer
 			(&cm.HTMLRenderer{ReferenceMap: refs, SoftBreakBehavior: soft, IgnoreRaw: cfg.ignore, FilterTag: libF}).Render(&fb, blocks)
 			filtered := fb.String()
